@@ -6,7 +6,7 @@
   `enabled`) are taken eagerly after each visible step of the same thread, exactly as the implementation
   runs on to its next yield point.
     run <id> m6 I=<ticks>
-    call <t> till <secs>
+    call <t> till <secs> | call <t> tillabs <secs>      (Till(seconds=secs) / Till(till=now+secs))
     env stop | env tick <d>
     step <t> enable | loopTest <b> | clock <n> | acq | rel <np> <nt> | sleep <w> | wake | fire <id> | cEnabled <b> | rPing <v> | wPing <v>
     end done|stuck <t>..
@@ -69,6 +69,13 @@ def feed (m : Sim) (ws : List String) : Except String Sim :=
     match t.toNat?, parseInt secs with
     | some t, some secs =>
       match callTill m.s t secs with
+      | none => .error s!"model: thread {t} is not idle at call"
+      | some s' => .ok { m with s := s', threads := insertSorted t m.threads }
+    | _, _ => .error "bad call"
+  | ["call", t, "tillabs", secs] =>
+    match t.toNat?, parseInt secs with
+    | some t, some secs =>
+      match callTillAbs m.s t secs with
       | none => .error s!"model: thread {t} is not idle at call"
       | some s' => .ok { m with s := s', threads := insertSorted t m.threads }
     | _, _ => .error "bad call"
